@@ -1232,7 +1232,20 @@ class FuncVerifier:
             for k in node.keywords:
                 self.ev(k.value, st, spec)
             self.abstracted.append(dict(line=node.lineno, stmt='call ' + ast.unparse(node)[:90], reason=str(e)[:160]))
-            havoc_state(self, st, set())
+            # the unknown callee may mutate, in place, any container it can reach through its arguments / receiver: locals
+            # holding container values that are passed to it are havocked too (object references stay: heap havoc covers them)
+            from .slicing import NameSet
+            roots = set()
+            for a in list(node.args) + [k.value for k in node.keywords] + (
+                    [f.value] if isinstance(f, ast.Attribute) else []):
+                r = a.value if isinstance(a, ast.Starred) else a
+                while isinstance(r, (ast.Attribute, ast.Subscript)):
+                    r = r.value
+                if isinstance(r, ast.Name):
+                    roots.add(r.id)
+            names = NameSet(roots)
+            names.mutated_only = frozenset(roots)
+            havoc_state(self, st, names)
             return self.E.fresh('unk', ANY)
 
     def ev_Lambda(self, node, st, spec):
